@@ -260,6 +260,16 @@ fn generated(ctx: &Ctx) -> Vec<Artefact> {
             }
         }
     }
+    // complete sweep of derivation-path lengths: every address length from 44 to 158 bytes
+    for len in 0..=110usize {
+        let path: Vec<u8> = (0..len).map(|i| (i * 13 + 5) as u8).collect();
+        let payload = AddressPayload {
+            root: Hash::from(roots(false)[2]),
+            attributes: vec![AddrAttrProperty::DerivationPath(ByteVec::from(path))].into(),
+            addrtype: AddrType::PubKey,
+        };
+        push(format!("gen:sweep/PubKey/path-len-{len}/root2"), payload);
+    }
     // payloads made by the crate's own constructor (root = hash of the spending data)
     let xpub: Vec<u8> = (0..64u8).collect();
     let redeem_key: Vec<u8> = (100..132u8).collect();
@@ -445,7 +455,11 @@ impl Stats {
 
 /// First half of the statement, on an address built from `payload`.
 fn check_roundtrip(key: u64, name: &str, payload: &AddressPayload, st: &mut Stats) {
-    let case = |extra: Value| json!({"artefact": name, "payload": format!("{payload:?}"), "detail": extra});
+    let raw_cell: std::cell::RefCell<Vec<u8>> = Default::default();
+    let case = |extra: Value| {
+        let raw = raw_cell.borrow();
+        json!({"artefact": name, "payload": format!("{payload:?}"), "detail": extra, "address_hex": hex::encode(&*raw), "address_base58": base58_encode(&raw)})
+    };
     macro_rules! guard {
         ($what:expr, $e:expr) => {
             match catch(|| $e) {
@@ -459,42 +473,62 @@ fn check_roundtrip(key: u64, name: &str, payload: &AddressPayload, st: &mut Stat
     }
     let pl = payload.clone();
     let addr = guard!("ByronAddress::from_decoded", ByronAddress::from_decoded(pl));
-    let step = |st: &mut Stats, what: &str, ok: bool, detail: String| {
+    let raw = guard!("to_vec", addr.to_vec());
+    *raw_cell.borrow_mut() = raw.clone();
+    let rkey = ((raw.len() as u64) << 32) | (key >> 40);
+    let step = |st: &mut Stats, fp: String, what: &str, ok: bool, detail: String| {
         st.roundtrip_evals += 1;
         st.evals += 1;
         if ok {
             st.roundtrip_ok += 1;
         } else {
-            st.viols.add_eager(key, format!("roundtrip:{what}"), format!("{name}: {what}: {detail}"), case(json!(detail)));
+            st.viols.add_eager(rkey, fp, format!("{name} ({} address bytes): {what}: {detail}", raw.len()), case(json!(detail)));
         }
     };
+    let plain = |what: &str| format!("roundtrip:{what}");
     // built address carries the CRC-32 of its payload bytes
     let own = crc32(&addr.payload.0);
-    step(st, "from_decoded crc == CRC-32(payload)", addr.crc == own, format!("crc field {:#010x}, CRC-32 of payload {:#010x}", addr.crc, own));
-    // base58
+    let w = "from_decoded crc == CRC-32(payload)";
+    step(st, plain(w), w, addr.crc == own, format!("crc field {:#010x}, CRC-32 of payload {:#010x}", addr.crc, own));
+    // base58; the harness' own decoder tells an encoder fault from a decoder fault
     let b58 = guard!("to_base58", addr.to_base58());
+    let own_view_ok = base58_decode(&b58).as_deref() == Some(raw.as_slice());
+    let b58_fp = |r: &Result<String, String>| -> String {
+        if !own_view_ok {
+            "roundtrip-base58:to_base58 output is not the base58 form of to_vec".into()
+        } else if r.is_err() {
+            "roundtrip-base58:valid base58 string of a built address rejected".into()
+        } else {
+            "roundtrip-base58:parses to a different address".into()
+        }
+    };
     let r = guard!("from_base58", ByronAddress::from_base58(&b58).map_err(|e| e.to_string()));
-    step(st, "from_base58(to_base58)", r.as_ref() == Ok(&addr), format!("{b58} -> {r:?}"));
+    step(st, b58_fp(&r.as_ref().map(|_| String::new()).map_err(|e| e.clone())), "from_base58(to_base58)", r.as_ref() == Ok(&addr), format!("{b58} -> {r:?}"));
     // CBOR of the address
-    let raw = guard!("to_vec", addr.to_vec());
     let r = guard!("from_bytes", ByronAddress::from_bytes(&raw).map_err(|e| e.to_string()));
-    step(st, "from_bytes(to_vec)", r.as_ref() == Ok(&addr), format!("{} -> {r:?}", hex::encode(&raw)));
+    let w = "from_bytes(to_vec)";
+    step(st, plain(w), w, r.as_ref() == Ok(&addr), format!("{} -> {r:?}", hex::encode(&raw)));
     // CBOR of the payload
     let r = guard!("decode", addr.decode().map_err(|e| e.to_string()));
-    step(st, "decode() gives the payload back", r.as_ref() == Ok(payload), format!("{r:?}"));
+    let w = "decode() gives the payload back";
+    step(st, plain(w), w, r.as_ref() == Ok(payload), format!("{r:?}"));
     if let Ok(p2) = r {
         let again = guard!("from_decoded(decode())", ByronAddress::from_decoded(p2));
-        step(st, "from_decoded(decode())", again == addr, format!("{again:?}"));
+        let w = "from_decoded(decode())";
+        step(st, plain(w), w, again == addr, format!("{again:?}"));
     }
     // through the Address front door
     let want = Address::Byron(addr.clone());
     let s = guard!("Address::to_string", want.to_string());
     let r = guard!("Address::from_str", Address::from_str(&s).map_err(|e| e.to_string()));
-    step(st, "Address::from_str(to_string)", r.as_ref() == Ok(&want), format!("{s} -> {r:?}"));
+    let fp = if s == b58 { b58_fp(&r.as_ref().map(|_| String::new()).map_err(|e| e.clone())) } else { plain("Address::to_string is to_base58") };
+    step(st, fp, "Address::from_str(to_string)", r.as_ref() == Ok(&want), format!("{s} -> {r:?}"));
     let r = guard!("Address::from_bytes", Address::from_bytes(&want.to_vec()).map_err(|e| e.to_string()));
-    step(st, "Address::from_bytes(to_vec)", r.as_ref() == Ok(&want), format!("{r:?}"));
+    let w = "Address::from_bytes(to_vec)";
+    step(st, plain(w), w, r.as_ref() == Ok(&want), format!("{r:?}"));
     let r = guard!("Address::from_hex", Address::from_hex(&want.to_hex()).map_err(|e| e.to_string()));
-    step(st, "Address::from_hex(to_hex)", r.as_ref() == Ok(&want), format!("{r:?}"));
+    let w = "Address::from_hex(to_hex)";
+    step(st, plain(w), w, r.as_ref() == Ok(&want), format!("{r:?}"));
 }
 
 fn check_artefact(ai: usize, a: &Artefact, st: &mut Stats) {
@@ -532,9 +566,14 @@ fn check_artefact(ai: usize, a: &Artefact, st: &mut Stats) {
             }
             Ok(other) => {
                 if a.built_from.is_some() {
-                    st.viols.add_eager(key, 
-                        format!("roundtrip:{}", e.name()),
-                        format!("{}: the unfaulted address {} is not accepted by {}: {other:?}", a.name, base_in.text_for(e), e.name()),
+                    let fp = match e {
+                        Entry::ByronFromBase58 | Entry::AddressFromStrBase58 => "roundtrip-base58:valid base58 string of a built address rejected".to_string(),
+                        _ => format!("roundtrip:{}", e.name()),
+                    };
+                    st.viols.add_eager(
+                        ((a.raw.len() as u64) << 32) | ai as u64,
+                        fp,
+                        format!("{} ({} address bytes): the unfaulted address {} is not accepted by {}: {other:?}", a.name, a.raw.len(), base_in.text_for(e), e.name()),
                         json!({"artefact": a.name, "entry": e.name(), "input": base_in.text_for(e)}),
                     );
                 } else {
@@ -662,8 +701,17 @@ fn replay(p: &std::path::Path) -> ! {
     let case = &v["case"];
     println!("replay C19 case={case}");
     let (Some(en), Some(inp)) = (case["entry"].as_str(), case["input"].as_str()) else {
-        println!("case has no entry/input (round-trip case); nothing to re-run");
-        std::process::exit(0)
+        // round-trip case: show what every entry point makes of the built address
+        let raw = hex::decode(case["address_hex"].as_str().unwrap_or("")).unwrap_or_default();
+        println!("independent view of address_hex ({} bytes): {:?}", raw.len(), classify(&raw));
+        let input = Input::new(raw);
+        let mut bad = false;
+        for e in ENTRIES {
+            let r = call(e, &input);
+            bad |= !matches!(r, Ok(Out::Byron(_)));
+            println!("{} on {} -> {:?}", e.name(), input.text_for(e), r.map(|o| match o { Out::Byron(b) => format!("Ok(ByronAddress crc={:#010x})", b.crc), other => format!("{other:?}") }));
+        }
+        std::process::exit(if bad { 1 } else { 0 })
     };
     let Some(e) = Entry::from_name(en) else { mc_core::report::machinery_failure(&format!("unknown entry point {en}")) };
     let raw = match e {
